@@ -228,6 +228,46 @@ func ibltEntry(h *harness) *entry {
 				}
 				emit(input{data: d, ops: ops, seed: "iblt-1024"})
 			}
+			// a difference in which one bucket OUTSIDE a key's own buckets is pure for that key while the key's own buckets can never
+			// become pure (count of magnitude 3): every decode pass finds the key exactly once, in the same bucket, for ever
+			for j := 0; j < 4; j++ {
+				key := hash.SHA256Sum([]byte(fmt.Sprintf("recurring-%d-%d", j, rnd.Int())))
+				t := tree.NewIblt(dag.IbltNumBuckets)
+				t.Insert(key)
+				tb, _ := t.MarshalBinary()
+				crafted := make([]byte, len(tb))
+				var pure []byte
+				own := map[int]bool{}
+				for b := 0; b < nb; b++ {
+					if binary.LittleEndian.Uint32(tb[b*bb:]) == 1 {
+						own[b] = true
+						pure = tb[b*bb : (b+1)*bb]
+					}
+				}
+				for b := range own {
+					o := crafted[b*bb : (b+1)*bb]
+					rnd.Read(o[4:])
+					binary.LittleEndian.PutUint32(o, []uint32{3, 0xfffffffd, 5, 4}[j%4]) // 3, -3, 5, 4
+				}
+				foreign := rnd.Intn(nb)
+				for own[foreign] {
+					foreign = rnd.Intn(nb)
+				}
+				copy(crafted[foreign*bb:], pure)
+				if j%2 == 1 {
+					binary.LittleEndian.PutUint32(crafted[foreign*bb:], 0xffffffff) // pure with count -1
+				}
+				c := tree.NewIblt(dag.IbltNumBuckets)
+				if err := c.UnmarshalBinary(crafted); err != nil {
+					panic(err)
+				}
+				pp := local.Clone().(*tree.Iblt)
+				if err := pp.Subtract(c); err != nil { // local - (local - crafted) = crafted is what Decode will see
+					panic(err)
+				}
+				d, _ := pp.MarshalBinary()
+				emit(input{data: d, ops: []string{fmt.Sprintf("iblt:recurring-pure-bucket-outside-own-buckets@/%d", j)}, seed: "iblt-1024"})
+			}
 			// all buckets hostile at once
 			for _, c := range counts {
 				d := append([]byte{}, valid...)
